@@ -263,12 +263,17 @@ class QGuard:
         self.guard, self.q = guard, q
 
 
-def forall(lo, hi, fn, hints=()):
+def forall(lo, hi, fn, hints=(), as_hypothesis=None):
+    """as_hypothesis: an equivalent (or weaker-to-instantiate) quantified fact used when the clause is
+    assumed rather than proved, e.g. injectivity through a left inverse instead of a nested quantifier."""
     if is_sym(lo) or is_sym(hi):
         d = z3.simplify(hi - lo)
         if z3.is_int_value(d) and d.as_long() <= 0:
             return True
-        return QForall(lo, hi, fn, hints)
+        q = QForall(lo, hi, fn, hints)
+        if as_hypothesis is not None:
+            q.hyp_alt = as_hypothesis()
+        return q
     for k in range(lo, hi):
         r = fn(k)
         if isinstance(r, QForall):
@@ -406,3 +411,28 @@ def same_match(a, b):
     if a is None or b is None:
         return a is b
     return a is b or (a.re is b.re and a.string is b.string and a.span() == b.span() and a.pos == b.pos)
+
+
+class QForall2:
+    """forall a, b. body(a, b)   (guards inside the body).  Instantiated at index pairs (i, j) that occur
+    together in two-dimensional array reads of the obligation, at skolem pairs, and at `hints`."""
+    def __init__(self, fn, hints=()):
+        self.fn, self.hints = fn, tuple(hints)
+
+
+def forall2(r_lo, r_hi, c_lo, c_hi, fn):
+    """forall r in [r_lo, r_hi), c in [c_lo, c_hi). fn(r, c)"""
+    if any(is_sym(x) for x in (r_lo, r_hi, c_lo, c_hi)) or _FORCE_SYM[0]:
+        return QForall2(lambda a, b: Implies(And(r_lo <= a, a < r_hi, c_lo <= b, b < c_hi), fn(a, b)))
+    return all(fn(a, b) for a in range(r_lo, r_hi) for b in range(c_lo, c_hi))
+
+
+def injective_rows(w, n):
+    """rows 0..n-1 of the grid are pairwise distinct objects.  Proved in the nested form; assumed through a
+    left inverse RowPos (rowid(i) == rowid(j) ==> i == RowPos(..) == j), which needs only linear instantiation."""
+    def hyp():
+        arr = w._h.fields['rowid']
+        RowPos = z3.Function('RowPos', arr.sort(), z3.IntSort(), z3.IntSort(), z3.IntSort())
+        return QForall(0, n, lambda i: RowPos(arr, n, z3.Select(arr, i)) == i)
+    return forall(0, n, lambda i: forall(i + 1, n, lambda j: Not(eq(w.rowid(i), w.rowid(j)))),
+                  as_hypothesis=hyp if is_sym(n) else None)
